@@ -381,7 +381,7 @@ func genRop(r *vx.Rng) rop {
 	case 0:
 		return ropT(r.Intn(12))
 	case 1:
-		return ropBytes(vx.Pick(r, []int64{0, 1, 3, 8, 100, 4096, 4097, 1 << 20, 1<<20 + 1, 1 << 30, 1 << 62, -1, -5}))
+		return ropBytes(vx.Pick(r, []int64{0, 1, 3, 8, 100, 4096, 4097, 1 << 30, 1 << 62, -1, -5}))
 	case 2, 3:
 		return ropBytesSize(l)
 	case 4:
@@ -491,15 +491,11 @@ func (g *gen) directedThreshold() {
 			}
 		}
 	}
-	// ... backed by all of the data (+ 2 bytes that must stay unread), or by all but the last byte
+	// ... backed by all of the data (+ 2 bytes that must stay unread); 2^20-1 / 2^21+5 with all data: stream part (C01);
+	// short by one byte = the first member of the truncated family below
 	withTail := func(n int) []byte { return append(patBytes(n), 0xee, 0xef) }
-	g.judgeRead(ropBytes(mib-1), "plain", withTail(mib-1), "directed-threshold-full")
 	g.judgeRead(ropBytes(mib), "half", withTail(mib), "directed-threshold-full")
 	g.judgeRead(ropBytes(mib+1), "bigscript", withTail(mib+1), "directed-threshold-full")
-	g.judgeRead(ropBytes(mib+1), "plain", patBytes(mib), "directed-threshold-short-by-one") // buffer full, grown, then EOF
-	g.judgeRead(ropBytes(mib), "dataerr", patBytes(mib-1), "directed-threshold-short-by-one")
-	pre32 := binary.LittleEndian.AppendUint32(nil, mib+1)
-	g.judgeRead(ropBytesSize(l32), "half", append(pre32, withTail(mib+1)...), "directed-threshold-full")
 	// claim >> data >= 1 MiB, then EOF: the first buffer fills, so the growth policy decides what is allocated. The data
 	// justifies buffers of 1, 2 (, 4) MiB; the claim (up to 2^28) justifies nothing beyond the first MiB.
 	u64 := cbKind{kind: 0}
